@@ -211,6 +211,10 @@ func (g *gen) enumBody(name, hint string) *Enum {
 		e.Prefix = rapid.SampledFrom([]string{"X_", "KIND_", "E_"}).Draw(t, "prefix") + screaming(hint) + "_"
 		g.cls("enum-prefix-override")
 	}
+	if rapid.IntRange(0, 2).Draw(t, "explicitzero") == 0 {
+		e.ExplicitZero = &EnumOption{Name: "UNSPECIFIED", Desc: g.desc()}
+		g.cls("enum-explicit-zero")
+	}
 	words := rapid.Permutation(enumWords).Draw(t, "enumwords")
 	n := rapid.IntRange(1, 4).Draw(t, "nopts")
 	for i := 0; i < n; i++ {
@@ -514,15 +518,30 @@ func (g *gen) fieldType(depth int, objectOnly bool, allowContainer bool, hint st
 				}
 				ty.Ref = g.refTo(ti)
 				ty.InlineEnum = nil
-				if g.o.Rules && !g.masked("rules:enum") && rapid.IntRange(0, 3).Draw(t, "enumrules") == 0 {
+				if g.o.Rules && !g.masked("rules:enum") && rapid.IntRange(0, 1).Draw(t, "enumrules") == 0 {
 					names := []string{}
 					for _, o := range ti.enum.Options {
 						names = append(names, o.Name)
 					}
+					// a non-empty sub-list of the options, in declaration order, which may
+					// name the implicit zero option as well
+					var pick []string
+					if ti.enum.ExplicitZero != nil && rapid.IntRange(0, 3).Draw(t, "rulezero") != 0 {
+						pick = append(pick, "UNSPECIFIED")
+						g.cls("rules:enum:names-unspecified")
+					}
+					for i, n := range names {
+						if (i == 0 && len(pick) == 0) || rapid.IntRange(0, 2).Draw(t, "rulepick") == 0 {
+							pick = append(pick, n)
+						}
+					}
 					if rapid.Bool().Draw(t, "in") {
-						ty.Rules = &Rules{In: names[:1]}
+						ty.Rules = &Rules{In: pick}
 					} else {
-						ty.Rules = &Rules{NotIn: names[:1]}
+						ty.Rules = &Rules{NotIn: pick}
+					}
+					if len(pick) > 1 {
+						g.cls("rules:enum:several-names")
 					}
 					g.cls("rules:enum")
 				}
